@@ -266,7 +266,7 @@ def oracle_frozen(c, ctx):
         dist = bd.build_flow({"factory": k, "dim": max(dim, 2) if k == "coupling_flow" else dim, "cond_dim": None,
                               "invert": bool(c["invert"]), "layers": 2, "key": seed, "width": 3, "negative_slope": 0.5,
                               "tight": False})
-    if k == "block_neural_autoregressive_flow" and (not c["invert"] or c["loop"] != "data"):
+    if k == "block_neural_autoregressive_flow" and (not c["invert"] or any(sg[0] != "data" for sg in (c.get("segments") or [[c["loop"]]]))):
         ctx.inconcl("bnaf_direction_without_reverse_mode_gradient")  # documented asymmetry (DESIGN F6)
         return
     dist = bd.perturb(dist, 0.2, seed)
@@ -280,30 +280,36 @@ def oracle_frozen(c, ctx):
         if np.issubdtype(arr.dtype, np.inexact) and np.any(arr != 0):
             raise Violation(f"C12|frozen|nonzero_gradient|{who}", f"gradient on a frozen leaf: {arr.tolist()}")
     fb, nb, tb = frozen_arrays(dist), nonfloat_arrays(dist), trainable_arrays(dist)
-    opt = OPTS[c["opt"]]()
-    steps = int(c["steps"])
-    if c["loop"] == "data":
-        out, _ = lib_call(f"C12|frozen|{who}|fit_to_data", fit_to_data, jr.PRNGKey(seed + 2), dist, x, max_epochs=steps,
-                          batch_size=6, val_prop=0.25, optimizer=opt, show_progress=False, return_best=bool(c["return_best"]),
-                          max_patience=10)
-    else:
-        target = lambda v: -0.5 * jnp.sum((v - 0.3) ** 2)  # noqa: E731
-        out, _ = lib_call(f"C12|frozen|{who}|fit_to_variational_target", fit_to_variational_target, jr.PRNGKey(seed + 2), dist,
-                          ElboLoss(target, 4), steps=steps, optimizer=opt, show_progress=False, return_best=bool(c["return_best"]))
+    # a HISTORY of training segments: each is one call of either loop with its own optimiser and step count
+    segments = c.get("segments") or [[c["loop"], c["opt"], int(c["steps"]), bool(c["return_best"])]]
+    out = dist
+    for si, (loop, optname, steps, rb) in enumerate(segments):
+        opt = OPTS[optname]()
+        if loop == "data":
+            out, _ = lib_call(f"C12|frozen|{who}|fit_to_data", fit_to_data, jr.PRNGKey(seed + 2 + si), out, x, max_epochs=int(steps),
+                              batch_size=6, val_prop=0.25, optimizer=opt, show_progress=False, return_best=bool(rb),
+                              max_patience=10)
+        else:
+            target = lambda v: -0.5 * jnp.sum((v - 0.3) ** 2)  # noqa: E731
+            out, _ = lib_call(f"C12|frozen|{who}|fit_to_variational_target", fit_to_variational_target, jr.PRNGKey(seed + 2 + si),
+                              out, ElboLoss(target, 4), steps=int(steps), optimizer=opt, show_progress=False, return_best=bool(rb))
+    steps = sum(int(sg[2]) for sg in segments)
     fa, na, ta = frozen_arrays(out), nonfloat_arrays(out), trainable_arrays(out)
     if len(fa) != len(fb) or any(u.tobytes() != v.tobytes() for u, v in zip(fb, fa)):
         bad = next((u, v) for u, v in zip(fb, fa) if u.tobytes() != v.tobytes()) if len(fa) == len(fb) else (None, None)
-        raise Violation(f"C12|frozen|moved_during_training|loop={c['loop']}|opt={c['opt']}",
+        raise Violation(f"C12|frozen|moved_during_training|loops={'+'.join(sorted({sg[0] for sg in segments}))}|opts={'+'.join(sorted({sg[1] for sg in segments}))}",
                         f"{who}: frozen leaf {None if bad[0] is None else bad[0].tolist()} -> "
                         f"{None if bad[1] is None else bad[1].tolist()} after {steps} steps")
     if len(na) != len(nb) or any(u.tobytes() != v.tobytes() for u, v in zip(nb, na)):
-        raise Violation(f"C12|frozen|non_float_leaf_changed|loop={c['loop']}", who)
+        raise Violation("C12|frozen|non_float_leaf_changed", who)
     moved = any(u.tobytes() != v.tobytes() for u, v in zip(tb, ta))
-    if moved and fb and not c["return_best"]:
+    if moved and fb:
         ctx.mark_nontrivial(c)
     ctx.hist("freeze_mode", c["freeze"])
-    ctx.hist("optimizer", c["opt"])
-    ctx.hist("loop", c["loop"])
+    for sg in segments:
+        ctx.hist("optimizer", sg[1])
+        ctx.hist("loop", sg[0])
+    ctx.hist("segments", len(segments))
 
 
 def oracle_conditioner(c, ctx):
@@ -361,8 +367,9 @@ def frozen_cases(draw):
                                                             "studentt_base_flow"])),
             "dim": draw(st.integers(1, 3)), "invert": draw(st.booleans()), "seed": draw(st.integers(0, 999)),
             "freeze": draw(st.sampled_from(["subset", "subset", "base", "base_leaves", "bijection", "all"])),
-            "bits": draw(st.lists(st.booleans(), min_size=5, max_size=5)), "opt": draw(st.sampled_from(sorted(OPTS))),
-            "loop": draw(st.sampled_from(["data", "vi"])), "steps": draw(st.integers(1, 4)), "return_best": draw(st.booleans())}
+            "bits": draw(st.lists(st.booleans(), min_size=5, max_size=5)),
+            "segments": draw(st.lists(st.tuples(st.sampled_from(["data", "vi"]), st.sampled_from(sorted(OPTS)), st.integers(1, 3),
+                                                st.booleans()).map(list), min_size=1, max_size=3))}
 
 
 @st.composite
